@@ -3,7 +3,7 @@
     buffer and hold for both; the statements below are specific to the comparison. *)
 From Coq Require Import ZArith List Lia.
 From OW Require Import Arrays.IntOps Arrays.View Arrays.Ops Arrays.IndexProofs Arrays.AffineProofs
-  Arrays.ContigProofs Arrays.MemProofs Arrays.ReshapeProofs Arrays.Exec Arrays.HistoryProofs Arrays.GoCProofs.
+  Arrays.ContigProofs Arrays.MemProofs Arrays.ReshapeProofs Arrays.Exec Arrays.HistoryProofs Arrays.GoCProofs Arrays.BulkProofs Arrays.WrapperViews Arrays.WrapperViewsC.
 Import ListNotations.
 Local Open Scope Z_scope.
 
@@ -68,6 +68,42 @@ Theorem C03_go_c_histories_agree_guarded : forall ops,
   arr_run_history arr_init_state (map (set_backing true) ops).
 Proof. exact go_c_histories_agree_guarded. Qed.
 Print Assumptions C03_go_c_histories_agree_guarded.
+
+(** The view pattern of the generated wrappers on CALLER-OWNED memory (what RunSingleModel
+    builds): Slice + MustReshape of a C-backed array never copies, the result reads and writes
+    exactly the parent's elements loc + unravel(d, rank) * step, and it stays inside the region
+    [start, start + size) of the caller's buffer *)
+Theorem C03_slice_reshape_denotes_c : forall (V : Type) (h : @heap V) c b rd v loc d st s,
+  wf_arr h (mkArr c (CImpl b)) rd v -> steps_pos v ->
+  slice_args_ok (adims v) loc d st -> Forall2 (fun sk dk => 1 < dk -> 1 <= sk) st d ->
+  d <> [] -> Forall (fun x => 0 < x) s -> s <> [] -> product s = product d ->
+  forall sl, slice (mkArr c (CImpl b)) loc d (Some st) = Some sl -> contiguous (cm sl) = Some true ->
+  exists r, must_reshape h sl s = Some (h, r) /\ im r = CImpl b /\
+    wf_arr_off h r s (start (cm sl)) /\
+    (forall i, valid_idx s i ->
+       get h r i = get h (mkArr c (CImpl b)) (vadd loc (vmul (unravel d (ravel s i)) st))) /\
+    (forall i x, valid_idx s i ->
+       set h r i x = set h (mkArr c (CImpl b)) (vadd loc (vmul (unravel d (ravel s i)) st)) x).
+Proof. exact (@slice_reshape_denotes_c). Qed.
+(** row (i, k, .) of a C-backed [N; K; T] block as a series of length T: element t is byte-for-byte
+    the caller's element (i*K + k)*T + t, for reads and for writes *)
+Theorem C03_wrapper_output_row_c : forall (V : Type) (h : @heap V) c b N K T i k,
+  wf_arr h (mkArr c (CImpl b)) [N; K; T] (idview [N; K; T]) ->
+  0 <= i < N -> 0 <= k < K -> 0 < T ->
+  exists sl r, slice (mkArr c (CImpl b)) [i; k; 0] [1; 1; T] (Some [1; 1; 1]) = Some sl /\
+    contiguous (cm sl) = Some true /\
+    must_reshape h sl [T] = Some (h, r) /\ im r = CImpl b /\
+    forall t, 0 <= t < T ->
+      get h r [t] = impl_read h (CImpl b) ((i * K + k) * T + t) /\
+      forall x, set h r [t] x = impl_write h (CImpl b) ((i * K + k) * T + t) x.
+Proof. exact (@wrapper_output_row_c). Qed.
+(** accesses through such an offset view never fail and never leave its region *)
+Theorem C03_offset_view_access_total : forall (V : Type) (h : @heap V) a s st i,
+  wf_arr_off h a s st -> valid_idx s i ->
+  (exists x, get h a i = Some x) /\ (forall x, exists h', set h a i x = Some h').
+Proof. exact (@get_set_total_off). Qed.
+Print Assumptions C03_slice_reshape_denotes_c.
+Print Assumptions C03_wrapper_output_row_c.
 
 (** NOT proved (C03_entry_point_partial): the reshape family and the whole-array helpers in
     whole-history form (element laws for them: C02), and equality of the exported C entry point
